@@ -168,6 +168,9 @@ struct History {
    std::unordered_map<const Node*, std::size_t> index;
    std::unordered_map<const Node*, std::string> generative;      // result of a generative constructor -> factory
    std::size_t made_seen = 0;
+   std::vector<std::size_t> others;          // sweep artifacts that are not nodes
+   cxx_form::impl::Designated_list_provision* dp = nullptr; cxx_form::impl::Braced_provision* dp_init = nullptr;
+   std::vector<std::pair<const cxx_form::Earmarked_initializer*, const cxx_form::Subobject_designator*>> dp_held;
    int step = 0;
    long long reobservations = 0, shadow_reruns = 0;
    // containers grown by the history itself
@@ -191,7 +194,7 @@ struct History {
       Collector col;
       for (; made_seen < S->made.size(); ++made_seen) {
          auto& m = S->made[made_seen];
-         if (!m.node) continue;
+         if (!m.node) { others.push_back(made_seen); C.count("artifacts_registered_that_are_not_nodes"); continue; }      // forms, attributes, tokens, captures, units: re-verified through their shadows
          if (m.generative) {
             auto [it, fresh] = generative.emplace(m.node, m.factory);
             if (!fresh) C.viol("generative-result-not-fresh:" + m.factory.substr(0, m.factory.find('(')), "a generative constructor (" + m.factory + ") returned a node that an earlier generative call (" + it->second + ") had already returned");
@@ -231,10 +234,32 @@ struct History {
       if (step - it.born > 40 && (reobservations % 9973) == 0)
          C.sample(J().s("kind", "re-observation").s("node", it.label).s("class", demangle(typeid(*it.n).name())).n("returned_at_step", it.born).n("re_observed_after_step", step).n("accessors_compared", (long long)it.fp.size()).b("container", it.container).str(), 4);
    }
+   void check_designated_list()
+   {
+      if (!dp) return;
+      C.count("designated_list_walks");
+      C.maxi("longest_designated_list_grown_by_a_history", (long long)dp_held.size());
+      if (dp->elements().size() != dp_held.size()) { C.viol("changed-after-later-step:Designated_list_provision:elements.size", "a designated list reports " + std::to_string(dp->elements().size()) + " members, " + std::to_string(dp_held.size()) + " were added"); return; }
+      std::size_t i = 0;
+      for (auto& m : dp->elements()) {
+         if (&m != dp_held[i].first) { C.viol("moved-after-later-step:Designated_list_provision:member", "member " + std::to_string(i) + " of a designated list with " + std::to_string(dp_held.size()) + " members is no longer the object that was handed out when it was added"); return; }
+         if (&m.subobject() != dp_held[i].second || &m.initializer() != static_cast<const cxx_form::Initialization_provision*>(dp_init)) { C.viol("changed-after-later-step:Designated_list_provision:member", "a member of a designated list no longer reports the designator / initializer it was added with"); return; }
+         ++i;
+      }
+   }
+   void observe_other(std::size_t made_index)
+   {
+      ++shadow_reruns;
+      auto& m = S->made[made_index];
+      Ck ck; Sweep::run_check(m, ck);
+      for (auto& f : ck.fails) C.viol("shadow-fails-after-later-step:" + m.factory.substr(0, m.factory.find('(')) + ":" + std::get<1>(f), "an artifact built by " + m.factory + " no longer reports what it was built from after step " + std::to_string(step) + ": " + std::get<2>(f));
+      C.count("reobservations_of_artifacts_that_are_not_nodes");
+   }
    void reobserve(bool everything)
    {
       if (items.empty()) return;
-      if (everything) { for (auto& it : items) observe(it); C.count("full_reobservations"); return; }
+      if (everything) { for (auto& it : items) observe(it); for (auto i : others) observe_other(i); check_designated_list(); C.count("full_reobservations"); return; }
+      for (int k = 0; k < 6 && !others.empty(); ++k) observe_other(others[rng.below(others.size())]);
       for (int k = 0; k < 48; ++k) observe(items[rng.below(items.size())]);
       // the most recent nodes and the oldest ones are the likeliest victims of a relocating store
       for (std::size_t k = 0; k < 16 && k < items.size(); ++k) observe(items[items.size() - 1 - k]);
@@ -299,7 +324,16 @@ struct History {
       case 18: { modules.emplace_back(lex); int n = 1 + int(rng.below(6)); for (int i = 0; i < n; ++i) { auto* mu = modules.back().make_unit(); reg(mu->global_namespace(), "module unit namespace"); mu->global_scope()->make_var(id("m", i), L.int_type()); } break; }
       case 19: { units.emplace_back(lex); auto* v = units.back().global_scope()->make_var(id("u", serial++), T()); fresh_generative(*v, "make_var"); reg(units.back().global_namespace(), "translation unit namespace"); break; }
       case 20: { int n = 1 + int(rng.below(30)); for (int i = 0; i < n; ++i) prag->tokens.push_back(lex.get_string(widen("tok" + std::to_string(serial++))), Source_location { }, TokenValue(i), TokenCategory(1)); break; }
-      case 21: { int n = 1 + int(rng.below(20)); for (int i = 0; i < n; ++i) fresh_generative(*un->declare_field(id("uf", serial++), T()), "declare_field"); break; }
+      case 21: { int n = 1 + int(rng.below(20)); for (int i = 0; i < n; ++i) fresh_generative(*un->declare_field(id("uf", serial++), T()), "declare_field");
+                 // and a designated-initializer list that the history keeps adding to: every member handed out so far stays where it is
+                 auto& greg = *unit.global_region();
+                 if (!dp) { dp = greg.make_designated_provision(); dp_init = greg.make_braced_provision(); }
+                 for (int i = 0; i < 1 + int(rng.below(9)); ++i) {
+                    const cxx_form::Subobject_designator* d = greg.make_field_designator(id("dd", serial++));
+                    dp_held.emplace_back(dp->seq.push_back(*d, *dp_init), d);
+                 }
+                 check_designated_list();
+                 break; }
       case 22: { // many overload sets in one scope, and redeclarations (decl-sets grow)
          int n = 5 + int(rng.below(60)); for (int i = 0; i < n; ++i) fresh_generative(*unit.global_scope()->make_var(id("g", int(rng.below(80))), *tpool[rng.below(4)]), "make_var"); break; }
       case 23: { // first declarations and redeclarations of every declaration kind (one kind per name; repeated (name, type) pairs):
@@ -375,7 +409,7 @@ static void body(Ctx& C)
       B->reobserve(true);
       C.count("overlapping_lexicon_pairs"); C.count("reobservations", B->reobservations); C.count("steps", B->step);
    }
-   for (auto k : { "overlapping_lexicon_pairs", "histories", "steps", "reobservations", "shadow_reruns", "generative_results", "nodes_registered", "full_reobservations", "steps:sweep-section", "steps:unified-table-growth", "steps:words", "steps:member-addition", "redeclaration_steps" }) C.need(k);
+   for (auto k : { "overlapping_lexicon_pairs", "histories", "steps", "reobservations", "shadow_reruns", "generative_results", "nodes_registered", "full_reobservations", "steps:sweep-section", "steps:unified-table-growth", "steps:words", "steps:member-addition", "redeclaration_steps", "reobservations_of_artifacts_that_are_not_nodes" }) C.need(k);
    C.need("string_pools", 2);
 }
 
